@@ -233,6 +233,34 @@ class C08(Check):
     trusted_base = ["hand-written model lean/Verif/C08/Model.lean, tied to delphin.tsdb/itsdb by the correspondence run",
                     "generated tables tsdbEscapes, fieldDelimiter, monthNames, monthNumbers read from the live module"]
 
+    def tables(self):
+        """Pins: the string/number constants of the anchored functions that the hand-written model mirrors
+        (regex patterns, strptime format, year-window constants, escape characters), read from the code objects."""
+        from .common import tables as T
+
+        import re as _re
+
+        def strs(fn):
+            out = []
+            for c in fn.__code__.co_consts:
+                if not isinstance(c, str) or c == (fn.__doc__ or None) or c.lower().startswith("invalid"):
+                    continue        # docstrings and message texts are not pinned
+                if "(?P<" in c:
+                    c = _re.sub(r"\s+", "", c)   # re.VERBOSE patterns: layout is irrelevant
+                out.append(c)
+            return out
+        pd = strs(tsdb._parse_datetime)
+        df = [c for c in tsdb._date_fix.__code__.co_consts if isinstance(c, (str, int)) and not isinstance(c, bool)]
+        fm = [c for c in tsdb.format.__code__.co_consts if isinstance(c, str) and c != tsdb.format.__doc__]
+        lit = T.lean_strlit
+        return [
+            "def c08ParseDatetimeConsts : List String := [%s]" % ", ".join(lit(c) for c in pd),
+            "def c08DateFixConsts : List String := [%s]" % ", ".join(lit(str(c)) for c in df),
+            "def c08FormatConsts : List String := [%s]" % ", ".join(lit(c) for c in fm),
+            "def c08EscapeConsts : List String := [%s]" % ", ".join(lit(c) for c in strs(tsdb.escape)),
+            "def c08UnescapeConsts : List String := [%s]" % ", ".join(lit(c) for c in strs(tsdb.unescape)),
+        ]
+
     def cases(self, rng, tier, n):
         L = 4 if tier == "quick" else 5
         alpha = ["\\", "@", "s", "n", "\n", "a"]
